@@ -67,3 +67,64 @@ def jac(P, z):
     X = x * z * z % p
     Y = y * z * z * z % p
     return ':'.join(h32(v * R % p) for v in (X, Y, z % p))
+
+
+# ---- points with a tiny y (so that y + p < 2^256 is an out-of-range encoding of the same residue): solve x^3 + a x + b - y^2 = 0
+def _pmulmod(s, t, c):
+    """product of two polynomials of degree <= 2 modulo x^3 + a x + c (coefficients low to high) over F_p"""
+    d = [0] * 5
+    for i in range(3):
+        for j in range(3):
+            d[i + j] = (d[i + j] + s[i] * t[j]) % p
+    # x^3 = -a x - c ; x^4 = -a x^2 - c x
+    r = [d[0], d[1], d[2]]
+    r[0] = (r[0] - c * d[3]) % p
+    r[1] = (r[1] - a * d[3] - c * d[4]) % p
+    r[2] = (r[2] - a * d[4]) % p
+    return r
+
+
+def _pgcd(f, g):
+    def trim(v):
+        while v and v[-1] % p == 0:
+            v = v[:-1]
+        return v
+    f, g = trim(list(f)), trim(list(g))
+    while g:
+        # f mod g
+        while len(f) >= len(g) and f:
+            k = f[-1] * pow(g[-1], -1, p) % p
+            sh = len(f) - len(g)
+            f = trim([(f[i] - (k * g[i - sh] if i >= sh else 0)) % p for i in range(len(f))])
+        f, g = g, f
+    return f
+
+
+def small_y_points(count=3):
+    out = []
+    y = 1
+    while len(out) < count and y < 200:
+        c = (b - y * y) % p
+        # x^p mod (x^3 + a x + c)
+        acc, base, e = [1, 0, 0], [0, 1, 0], p
+        while e:
+            if e & 1:
+                acc = _pmulmod(acc, base, c)
+            base = _pmulmod(base, base, c)
+            e >>= 1
+        g = _pgcd([c, a, 0, 1], [(acc[0]) % p, (acc[1] - 1) % p, acc[2]])
+        x = None
+        if len(g) == 2:
+            x = (-g[0]) * pow(g[1], -1, p) % p
+        elif len(g) == 3:
+            # monic quadratic x^2 + B x + C
+            inv = pow(g[2], -1, p)
+            B, C = g[1] * inv % p, g[0] * inv % p
+            disc = (B * B - 4 * C) % p
+            sq = pow(disc, (p + 1) // 4, p)
+            if sq * sq % p == disc:
+                x = (-B + sq) * pow(2, -1, p) % p
+        if x is not None and on_curve(x, y):
+            out.append((x, y))
+        y += 1
+    return out
